@@ -328,10 +328,16 @@ def rule_H(ck, lib):
             first_ok = ps.decided(pathsum.St(x.conds), apps[0][3], OK)
             if len(apps) == 1 and first_ok is not False:
                 ok = True
+            elif len(apps) == 1 and first_ok is False and x.kind in ("return", "err") and x.value is not None and x.value[0] == "ctor" and x.value[1] == ERR:
+                ok = True       # the compound lookup failed and nothing else is tried
             elif len(apps) == 2 and first_ok is False and names[1] == "common_command_program_header" and apps[1][1] == (root,) and apps[1][2] == (inp,):
                 ok = True
             else:
                 why = "after the compound header (%s) it applies %s with %s" % ({True: "ok", False: "failed", None: "?"}[first_ok], names[1:], [[show_term(t) for t in a[1]] for a in apps[1:]])
+        elif names == ["common_command_program_header"] and apps[0][1] == (root,) and apps[0][2] == (inp,):
+            ok = True       # the alternative chosen at once (by the first byte): still one of the two lookups, with the root
+        elif not apps and x.kind in ("return", "err") and x.value is not None and x.value[0] == "ctor" and x.value[1] == ERR:
+            ok = True       # no lookup at all and no header (end of input)
         else:
             why = "first alternative is %s%s" % (names[:1], [show_term(t) for t in apps[0][1]] if apps else "")
         ck.judge(ok, "C02-H", "command_program_header:path#%d" % n, "compound(root, path) first, common(root) only on its failure",
